@@ -2,7 +2,8 @@
 
 C22 definitions (all field kinds, positions, list executables, append_args) with values from the
 mild (words and blanks), safe (shell metacharacters) and hostile (C23) alphabets; hostile strings
-also go into list executables and append_args, which reach argv verbatim.
+also go into list/tuple executables and append_args, which reach argv verbatim; one run gives those
+verbatim arguments a dense quoting alphabet (' " backslash blank $ ` !) over safe field values.
 Oracle: shlex.split(task.cmdline, posix=True) == the argv handed to
 `pydra.environments.base.execute` when the same task is run (round trip; no reference model).
 Defect model for attribution: "cmdline is the executed argv joined by blanks where only arguments
@@ -27,10 +28,15 @@ TECHNIQUE = "round trip shlex.split(cmdline) vs recorded argv (defect model: nai
 RULE = (
     "cases = (C22 definition of 1-5 fields incl. positions and list executables, value assignment "
     "and append_args drawn from one alphabet: mild [word chars, space], safe [metacharacters "
-    "without blanks/quotes/backslash, unicode] or hostile [space, tab, quotes, backslash, "
-    "metacharacters, unicode]; executable list elements and append_args use the same alphabet). "
-    "Non-trivial = a non-word character occurs in a string that reaches the command and the task "
-    "executed an argv; distinct = canonical case."
+    "without blanks/quotes/backslash, unicode letters, non-POSIX whitespace such as U+00A0 U+3000 "
+    "FF] or hostile [space, tab, quotes, backslash, metacharacters, unicode]; executable parts and "
+    "append_args use the same alphabet; a fourth run draws the field values from the safe alphabet "
+    "(so that the command is always executed) and the arguments that reach argv verbatim -- "
+    "executable parts, executable given at instantiation, append_args -- from the quoting "
+    "alphabet [a b ' \\ \" blank $ ` !, length 1-5], dense in the combinations quoting rules "
+    "distinguish; multi-part executables are given as list or tuple, definitions in the functional "
+    "or the class form). Non-trivial = a non-word character occurs in a string that reaches the "
+    "command and the task executed an argv; distinct = canonical case."
 )
 ASSUMPTIONS = [
     "POSIX word splitting is taken from the standard library (shlex.split, posix=True); expansion "
@@ -103,13 +109,17 @@ def check_case(case):
 
 
 @st.composite
-def c24_case(draw, alpha):
+def c24_case(draw, alpha, verbatim=None):
+    """`verbatim`: alphabet for the strings that reach argv without passing through an argstr
+    (executable parts, append_args); default: the alphabet of the field values"""
+    valpha = alpha if verbatim is None else verbatim
     exes = ["tool", ["tool", "sub"]]
-    e = draw(st.lists(G.text(alpha), min_size=1, max_size=2))
+    e = draw(st.lists(G.text(valpha), min_size=1, max_size=2))
     if not any(x.startswith(("-", "<")) for x in e):  # the template parser owns '-' and '<'
         exes.append(["tool"] + e)
-    case = draw(G.cases(alpha, executables=tuple(exes)))
-    case["alphabet"] = alpha["name"]
+    case = draw(G.cases(alpha, executables=tuple(exes), verbatim=verbatim,
+                        styles=("function", "function", "class"), exe_seqs=("list", "tuple")))
+    case["alphabet"] = alpha["name"] + ("" if verbatim is None else "+" + verbatim["name"])
     return case
 
 
@@ -124,9 +134,16 @@ def strings_of(case):
     return out + list(case.get("append_args") or [])
 
 
+def verbatim_of(case):
+    """the strings that reach argv as they are: executable parts and append_args"""
+    exe = G.effective_spec(case)["executable"]
+    return (list(exe) if isinstance(exe, list) else [exe]) + list(case.get("append_args") or [])
+
+
 def run(sh):
-    for alpha, (q, t) in ((G.MILD, (700, 15000)), (G.SAFE, (700, 15000)),
-                          (G.HOSTILE, (800, 20000))):
+    for alpha, verbatim, (q, t) in ((G.MILD, None, (600, 13000)), (G.SAFE, None, (600, 13000)),
+                                    (G.HOSTILE, None, (700, 18000)),
+                                    (G.SAFE, G.QUOTING, (500, 12000))):
         def body(case):
             strs = strings_of(case)
             special = G.has_special(strs)
@@ -142,6 +159,25 @@ def run(sh):
                 labels.append("has_space")
             if any("'" in s for s in strs):
                 labels.append("has_single_quote")
+            form = G.executable_form(case)
+            if form != "str":
+                labels.append("executable_" + form)
+            if case["spec"].get("style") == "class":
+                labels.append("definition_style_class")
+            if G.has_uws(strs):
+                labels.append("has_nonposix_whitespace")
+            # classes of verbatim arguments by what a quoting rule has to get right
+            for a in verbatim_of(case):
+                kinds = [k for k, c in (("squote", "'"), ("dquote", '"'), ("backslash", "\\"),
+                                        ("blank", " "), ("dollar_backtick_bang", "$`!"))
+                         if any(ch in a for ch in c)]
+                labels += [f"verbatim_arg_mixes_{k}+{m}" for i, k in enumerate(kinds)
+                           for m in kinds[i + 1:]]
+                if a.endswith("\\"):
+                    labels.append("verbatim_arg_ends_with_backslash")
+                if "\\\\" in a:
+                    labels.append("verbatim_arg_has_doubled_backslash")
+            labels = sorted(set(labels))
             sh.run_case(case, nontrivial=special, labels=labels, raise_unattributed=True)
             if LAST.get("outcome"):
                 sh.count(LAST["outcome"])
@@ -150,4 +186,5 @@ def run(sh):
                 if LAST.get("quoted"):
                     sh.count("held_with_quoted_argument")
 
-        sh.given(c24_case(alpha), body, sh.budget(q, t), tag=alpha["name"])
+        sh.given(c24_case(alpha, verbatim), body, sh.budget(q, t),
+                 tag=alpha["name"] + ("" if verbatim is None else "+" + verbatim["name"]))
